@@ -1,4 +1,5 @@
 mod common;
+mod c01;
 mod c02;
 mod c03;
 mod c08;
@@ -40,6 +41,7 @@ fn main() {
         "c11" => c11::run(&cases),
         "c04" => c04::run(&cases),
         "c03" => c03::run(&cases),
+        "c01" => c01::run(&cases),
         "c02" => c02::run(&cases),
         "c05" => tsx_client::run(&cases, false),
         "c07" => tsx_client::run(&cases, true),
